@@ -201,6 +201,7 @@ type World struct {
 	natName     map[string]string // real name -> abstract
 	canon       map[int]int       // raw plan position -> position in the canonical call order of the last reconcile
 	guardMaxOrd int               // sim: highest ordinal user actions may make desirable
+	slowTail    bool              // sim: the kubelet of the fair tail reaps terminating pods only every other round
 	queueMode   bool              // sim: reconciles happen only through the controller's work queue, caches fire the handlers
 }
 
